@@ -177,7 +177,7 @@ pub fn check(c: &PathCase, obs: &mut Obs) -> Result<(), String> {
 }
 
 fn run(ctx: &mut Ctx) {
-    let cases = ctx.share(ctx.tier.pick(80_000, 2_000_000));
+    let cases = ctx.share(ctx.tier.pick(500_000, 5_000_000));
     let p = ctx.tier.pick(TreeParams::quick(), TreeParams::thorough());
     run_strategy(ctx, "C08", "eval", cases, arb_path_for(p), check);
 }
